@@ -9,7 +9,7 @@ from .engine import PanicEx, Unsupported
 from .models_std import model, MODELS, some, none, ok, err, deref_all, as_str, IterV, get_iter, \
     ITER_KINDS, vec_of
 from . import strings as S
-from .doc import SymDoc, SymArray, Cell
+from .doc import SymDoc, SymArray, Cell, ConcDoc
 
 
 class RegexV:
@@ -305,7 +305,7 @@ def m_doc_find(ex, callee, args):
     r = args[0]
     t = r.get() if isinstance(r, Ref) else r
     key = as_str(args[1])
-    if isinstance(t, SymDoc):
+    if isinstance(t, (SymDoc, ConcDoc)):
         if not isinstance(key, bytes):
             raise Unsupported('Document::find with a symbolic key')
         record_find(ex, t, key)
@@ -339,6 +339,8 @@ def m_obj_find(ex, callee, args):
 def m_obj_get(ex, callee, args):
     t = deref_all(args[0])
     key = as_str(args[1])
+    if isinstance(t, ConcDoc):
+        return t.find_value(key)
     if isinstance(t, SymDoc):
         if isinstance(key, bytes):
             ex.run.events.append(('get', t.path, key))
